@@ -18,6 +18,7 @@ import (
 type c17op struct {
 	kind string // push, pushdup, pop, popn, peek, peekn, empty
 	k    int    // for popn/peekn: symbolic argument index
+	lit  int    // for popn/peekn in burst histories: the argument itself, when > 0
 }
 
 // argument domain for n, resolved against the current length
@@ -40,14 +41,17 @@ func c17resolve(sym string, n int) int {
 }
 
 func c17alphabet() []c17op {
-	ops := []c17op{{"push", 0}, {"pushdup", 0}, {"pushreuse", 0}, {"pushpeeked", 0}, {"pushlast", 0}, {"pop", 0}, {"peek", 0}, {"empty", 0}}
+	ops := []c17op{{kind: "push"}, {kind: "pushdup"}, {kind: "pushreuse"}, {kind: "pushpeeked"}, {kind: "pushlast"}, {kind: "pop"}, {kind: "peek"}, {kind: "empty"}}
 	for i := range c17args {
-		ops = append(ops, c17op{"popn", i}, c17op{"peekn", i})
+		ops = append(ops, c17op{kind: "popn", k: i}, c17op{kind: "peekn", k: i})
 	}
 	return ops
 }
 
 func (o c17op) String() string {
+	if (o.kind == "popn" || o.kind == "peekn") && o.lit > 0 {
+		return fmt.Sprintf("%s(%d)", o.kind, o.lit)
+	}
 	if o.kind == "popn" || o.kind == "peekn" {
 		return o.kind + "(" + c17args[o.k] + ")"
 	}
@@ -181,6 +185,9 @@ func c17apply(q *UnAckQueue, ref *c17ref, o c17op) (string, string) {
 		}
 	case "popn", "peekn":
 		k := c17resolve(c17args[o.k], n)
+		if o.lit > 0 {
+			k = o.lit
+		}
 		var got []Queueable
 		if o.kind == "popn" {
 			got = q.PopN(k)
@@ -325,6 +332,94 @@ func c17path(p []c17op) string {
 	return strings.Join(s, " ")
 }
 
+
+// c17burstScenarios: long histories. The queue grows to N entries and is taken down again, one entry at a time
+// or by one pop-n of every size, and is used again afterwards: whatever the implementation does with its storage when
+// it has grown or shrunk (reallocation, compaction, release) happens somewhere along these, for every N up to the
+// bound and some larger ones around powers of two. Each operation is compared with the reference as in the search.
+func c17burstScenarios() []hx.Scenario {
+	var ns []int
+	dense, big := 130, []int{255, 256, 257, 300, 511, 512, 513, 1000, 1025}
+	if hx.Thorough() {
+		dense, big = 300, []int{511, 512, 513, 1000, 1023, 1024, 1025, 2047, 2048, 2049, 4097}
+	}
+	for n := 1; n <= dense; n++ {
+		ns = append(ns, n)
+	}
+	ns = append(ns, big...)
+	after := []c17op{{kind: "push"}, {kind: "peek"}, {kind: "push"}, {kind: "pop"}, {kind: "peekn", k: 5}, {kind: "pop"}, {kind: "pop"}, {kind: "empty"}}
+	run := func(c *hx.Ctx, what string, n int, hist []c17op) bool {
+		q, ref := NewUnAckQueue(), &c17ref{}
+		for i, o := range hist {
+			c.Step(1)
+			if k, d := c17apply(q, ref, o); k != "" {
+				h := fmt.Sprintf("%s: %d pushes, then %s", what, n, c17path(hist[n:i+1]))
+				c.Fail("C17|"+k+"|burst", h, "%s (history: %s)", d, h)
+				return false
+			}
+		}
+		c.Eval(fmt.Sprintf("burst %s n=%d => %s", what, n, c17snapshot(q)))
+		return true
+	}
+	pushes := func(n int) []c17op {
+		h := make([]c17op, 0, n+16)
+		for i := 0; i < n; i++ {
+			h = append(h, c17op{kind: "push"})
+		}
+		return h
+	}
+	var scs []hx.Scenario
+	const shards = 8
+	for sh := 0; sh < shards; sh++ {
+		sh := sh
+		scs = append(scs, hx.Scenario{Name: fmt.Sprintf("burst/shard=%d", sh), Run: func(c *hx.Ctx) {
+			for i, n := range ns {
+				if i%shards != sh || c.Expired() {
+					continue
+				}
+				// one by one, down to nothing, then used again
+				h := pushes(n)
+				for j := 0; j < n; j++ {
+					h = append(h, c17op{kind: "pop"})
+				}
+				if !run(c, "drained one by one", n, append(h, after...)) {
+					return
+				}
+				// one pop-n of every size (quick tier: the sizes around the quarters for the larger N), then used again
+				for k := 1; k <= n; k++ {
+					if n > dense || !hx.Thorough() && n > 40 {
+						near := false
+						for _, q := range []int{1, 2, n / 8, n / 4, n / 2, 3 * n / 4, 7 * n / 8, n - 2, n - 1, n} {
+							if k >= q-1 && k <= q+1 {
+								near = true
+							}
+						}
+						if !near {
+							continue
+						}
+					}
+					h := append(pushes(n), c17op{kind: "popn", lit: k})
+					if !run(c, "pop-n", n, append(h, after...)) {
+						return
+					}
+				}
+				// saw-tooth: down to one entry, up again, down by pop-n
+				h = pushes(n)
+				for j := 0; j < n-1; j++ {
+					h = append(h, c17op{kind: "pop"})
+				}
+				h = append(h, pushes(n/2+1)...)
+				h = append(h, c17op{kind: "popn", lit: n/2 + 1})
+				if !run(c, "saw-tooth", n, append(h, after...)) {
+					return
+				}
+			}
+			c.Sample(map[string]any{"shard": sh, "sizes": len(ns)})
+		}})
+	}
+	return scs
+}
+
 func TestVerifC17(t *testing.T) {
 	ops := c17alphabet()
 	depthBFS, depthAll := 10, 4
@@ -415,6 +510,7 @@ func TestVerifC17(t *testing.T) {
 			}})
 		}
 	}
+	scs = append(scs, c17burstScenarios()...)
 	if rc := hx.Main("C17", scs); rc == 2 {
 		t.Fatal("internal error")
 	}
